@@ -33,12 +33,15 @@ RULE = (
     "case to depth 3 (quick) / 4 (thorough) with digest deduplication; redshifts sit exactly on bin edges and one "
     "ulp next to them so that every binning difference changes counts. Oracle: result of each measurement "
     "transition == the same measurement on fresh caches. Non-trivial: a measurement whose source state holds "
-    "trees of another binning or role for one of the catalogs it uses. One case = the BFS below one first operation."
+    "trees of another binning or role for one of the catalogs it uses. One case = the BFS below one first operation. "
+    "Handles part: every history of <= depth operations {build_trees(B1r|B2|unbinned), crosscorrelate(B1r|B2)} x {handle 1, "
+    "handle 2}, two Catalog objects opened once on the same directories and kept alive; each history runs from pristine "
+    "directories (stateless), the oracle is applied to every measurement that ends a history."
 )
 ASSUMPTIONS = [
     "merging states with equal digest is sound because every operation reads nothing but these files and its arguments",
-    "catalog handles are re-opened from the cache directory for every transition (the reopen operation of the "
-    "statement is thereby part of every step)",
+    "BFS part: catalog handles are re-opened from the cache directory for every transition (the reopen operation of the "
+    "statement is thereby part of every step); long-lived handles are the subject of the handles part",
 ]
 
 E = 0.2
@@ -72,10 +75,20 @@ def all_ops(tier):
     return [list(o) for o in ops]
 
 
+def handle_ops():
+    """Operations through one of two catalog handles that stay alive for the whole history."""
+    ops = [["hbuild", h, b] for h in (1, 2) for b in ("B1r", "B2", "U")]
+    ops += [["hcross", h, b] for h in (1, 2) for b in ("B1r", "B2")]
+    return ops
+
+
 def cases(tier, seed):
     ops = all_ops(tier)
     depth = 3 if tier == "quick" else 4
-    return [dict(first=o, depth=depth, tier=tier, seed=seed) for o in ops]
+    out = [dict(first=o, depth=depth, tier=tier, seed=seed) for o in ops]
+    # long-lived handles: every history of <= depth operations through two handles on the same directories
+    out += [dict(part="handles", first=o, depth=depth, tier=tier, seed=seed) for o in handle_ops()]
+    return out
 
 
 def setup():
@@ -212,7 +225,89 @@ def restore(snap, live_root):
     return new
 
 
+def run_handles(case):
+    """Stateless enumeration: live handles cannot be snapshotted, every history runs from pristine directories."""
+    import yaw
+    from yaw import Catalog
+
+    root = runner.fresh_dir("c07h")
+    pristine = os.path.join(root, "pristine")
+    os.makedirs(pristine)
+    make_fixture(pristine)
+    work = os.path.join(root, "work")
+    os.makedirs(work)
+    ops = handle_ops()
+    fresh, viols = {}, []
+    counters = dict(states=0, transitions=0, measurements=0, nontrivial_measurements=0, executions=0)
+
+    def measure(cats, b):
+        return obs(yaw.crosscorrelate(config_for(b, "s1"), cats["R"], cats["U"], unk_rand=cats["RR"]))
+
+    def fresh_result(b):
+        if b not in fresh:
+            d = restore(pristine, work)
+            fresh[b] = measure({n: Catalog(os.path.join(d, n)) for n in ("R", "U", "RR")}, b)
+            shutil.rmtree(d, ignore_errors=True)
+        return fresh[b]
+
+    def run_history(hist):
+        """Executes the history; the oracle is applied to its last operation (prefixes are histories of their own)."""
+        d = restore(pristine, work)
+        handles = {h: {n: Catalog(os.path.join(d, n)) for n in ("R", "U", "RR")} for h in (1, 2)}
+        counters["executions"] += 1
+        try:
+            got = None
+            for kind, h, b in hist:
+                counters["transitions"] += 1
+                if kind == "hbuild":
+                    edges, closed = BINNINGS[b]
+                    handles[h]["R"].build_trees(edges, closed=closed)
+                    got = None
+                else:
+                    got = measure(handles[h], b)
+        except Exception as e:
+            viols.append(dict(signature=f"C07/handles/exception:{type(e).__name__}",
+                              what=f"history {hist} through long-lived handles raised {yawx.exc_name(e)}",
+                              replay_case=dict(part="handles", replay_history=hist, tier=case["tier"], seed=case["seed"])))
+            return
+        finally:
+            shutil.rmtree(d, ignore_errors=True)
+        if got is not None:
+            counters["measurements"] += 1
+            last = hist[-1]
+            others = {(k, b) for k, h, b in hist[:-1]} - {("hbuild", last[2]), ("hcross", last[2])}
+            counters["nontrivial_measurements"] += int(bool(others))
+            if got != fresh_result(last[2]):
+                viols.append(dict(
+                    signature=f"C07/handles/hcross:{last[2]}/differs-from-fresh",
+                    what=f"crosscorrelate with binning {last[2]} through handle {last[1]} after the history {hist[:-1]} "
+                         f"(two live handles on the same cache directories) differs from the measurement on fresh caches",
+                    replay_case=dict(part="handles", replay_history=hist, tier=case["tier"], seed=case["seed"])))
+
+    if "replay_history" in case:
+        run_history([list(o) for o in case["replay_history"]])
+    else:
+        def rec(hist):
+            if hist[-1][0] == "hcross":
+                run_history(hist)
+            if len(hist) < case["depth"]:
+                for op in ops:
+                    rec(hist + [op])
+        rec([case["first"]])
+    counters["states"] = counters["executions"]
+    res = dict(nontrivial=counters["nontrivial_measurements"] > 0, key=case, counters=counters,
+               sample=dict(first=case.get("first"), histories=counters["executions"]))
+    if viols:
+        uniq = {}
+        for v in viols:
+            uniq.setdefault(v["signature"], v)
+        res.update(status="violation", violations=list(uniq.values())[:4])
+    return res
+
+
 def run_case(case):
+    if case.get("part") == "handles":
+        return run_handles(case)
     ops = all_ops(case["tier"])
     root = runner.fresh_dir("c07")
     live = os.path.join(root, "live")
